@@ -66,7 +66,7 @@ PROPS["C18"] = {
     "assumptions": SCHED_ASSUME + ["target selection (command-line names, else `default`, else every file; unknown name => error before anything runs) lives in run::build and is not under contract yet (unit run)",
         "'no step outside the closure is ever run' is decided through C01 (a command starts only from state Queued, reached only from Ready/Want, reached only inside want_build); the converse 'only reachable builds are wanted' is not stated as a clause",
         "-f / -C / builddir are process-level configuration: not decided",
-        "KNOWN FINDING D14 (unit load): load::read leaves log-only names in the file table that Work::lookup resolves command-line names against, so a name that occurs nowhere in the manifest but is known to .n2_db is accepted"],
+        "D14 (names known only to .n2_db were accepted as targets) was a known finding of this check and is FIXED in /repo (78a696c): unit load proves State::manifest_files is the file count at the end of parsing, that it is >= 1 and bounds every `default` target; the run protocol lets want_file take only ids below it, and a lookup of a log-only file counts as unknown"],
 }
 PROPS["C19"] = {
     "units": ["sched", "dirty", "run", "proc"],
